@@ -4,7 +4,7 @@ import json, os, sys, shutil, subprocess, tempfile
 sys.path.insert(0, os.path.dirname(os.path.dirname(os.path.abspath(__file__))))
 from sa import selftest
 name = sys.argv[1]; props = sys.argv[2:]
-v = [x for x in selftest.load_variants() if x["name"] == name][0]
+v = [x for x in selftest.load_variants(retired=True) if x["name"] == name][0]
 scratch = selftest._make_scratch(os.environ.get("FUNC_ADL_REPO", "/repo"))
 try:
     ok = selftest._apply(scratch, os.path.join(selftest.VERIF, v["patch"]), bool(v.get("reverse")))
